@@ -277,7 +277,9 @@ func runKeyType[K comparable](name string, pool []K, sp *SpecialCase, r *simrt.R
 		ct = cacheK[K]{cache.NewOfDefault[K, int64](0, 0)}
 	} else if sp.ConstHasher {
 		// a caller-supplied hasher under which every key collides (always a valid hasher)
-		ct = mapK[K]{bridge.NewMapOfWithHasher[K, int64](func(K, uint64) uint64 { return 0x5bd1e995 }, r.Intn(40))}
+		// (the constant is an ordinary value, zero or all ones: none of them may be read as a marker)
+		hc := []uint64{0x5bd1e995, 0, math.MaxUint64}[r.Intn(3)]
+		ct = mapK[K]{bridge.NewMapOfWithHasher[K, int64](func(K, uint64) uint64 { return hc }, r.Intn(40))}
 	} else if r.Bool(0.5) {
 		ct = mapK[K]{cache.NewMapOf[K, int64]()}
 	} else {
